@@ -135,9 +135,7 @@ Lemma pim_ack_x ti tm p q (s1 : vsock) h :
   exists s2 res, pim_ack cci s1 h = Some (s2, res) /\
     vs_x ti tm (p + ar_acked_bytes res) q s2 /\ acc_ok res /\
     ps_for (v_last_sent_seq_nr s2) (v_segs s2) /\ in_rel s1 s2 /\
-    v_sends s2 = v_sends s1 /\ v_transport_pending s2 = v_transport_pending s1 /\
-    ss_snd_una (v_segs s2) = wadd16 (ss_snd_una (v_segs s1)) (ar_acked_segments res mod M16) /\
-    len_z (ss_segs (v_segs s1)) = ar_acked_segments res + len_z (ss_segs (v_segs s2)).
+    (forall x, ps_for x (v_segs s1) -> ps_for x (v_segs s2)).
 Proof.
   intros [Hinv [Haux Hnow]] Hps.
   destruct (inv_parts _ _ _ _ Hinv) as (I1 & I2 & I3 & I4 & (R0 & R1 & R2 & R3) & I6 & I7 & I8).
@@ -147,7 +145,6 @@ Proof.
   pose proof (remove_up_to_ack_zero _ _ _ _ _ _ Er) as Hz.
   pose proof (remove_up_to_ack_aux q _ _ _ _ _ _ Er Haux) as Haux1.
   pose proof (ps_remove _ _ _ _ _ _ _ Hps Er) as Hps1.
-  destruct (remove_up_to_ack_struct _ _ _ _ _ _ Er) as (la & lb & ld & _ & _ & _ & Hu1).
   (* the RTT sample *)
   assert (Hrt : exists rtte1,
             match is_recovering (v_recovery s1), ar_new_rtt res with
@@ -182,9 +179,7 @@ Proof.
   split; [vsimpl; eapply ps_ev; [exact Hps1|exact Hlen|exact Un]|].
   split.
   { unfold in_rel, emsg_free, ss_mono. vsimpl. repeat split; auto; try lia; try tauto. }
-  vsimpl. split; [reflexivity|]. split; [reflexivity|].
-  split; [rewrite Un; exact Hu1|].
-  unfold len_z. rewrite Hlen. lia.
+  vsimpl. intros x Hx. eapply ps_ev; [eapply ps_remove; [exact Hx|exact Er]|exact Hlen|exact Un].
 Qed.
 
 (* ------------------------------------------------------------------ ST_DATA *)
@@ -238,6 +233,111 @@ Proof.
     split; [eapply x_same_core; eauto|].
     split; [eapply in_rel_trans; [exact Hr5|]; eapply in_rel_trans; [exact Hrf|]; apply ctl_in_rel; assumption|].
     destruct Hcore as (_ & _ & E3 & _). congruence.
+Qed.
+
+(* ------------------------------------------------------------------ ST_FIN *)
+Lemma pim_fin_x ti tm p q (s2 : vsock) m res offset seen :
+  vs_x ti tm p q s2 ->
+  spx strict (pim_fin s2 m res offset seen) (data_post ti tm p q s2 res) (vs_xe ti tm q).
+Proof.
+  intros Hx. pose proof Hx as [Hinv _].
+  destruct (inv_parts _ _ _ _ Hinv) as (I1 & I2 & I3 & I4 & I5 & I6 & I7 & I8).
+  unfold pim_fin. cbv zeta.
+  destruct (negb seen && (0 <=? offset)) eqn:Ec.
+  2:{ cbn [spx]. unfold data_post. split; [reflexivity|]. split; [exact Hx|].
+      split; [exact (in_rel_refl s2)|reflexivity]. }
+  apply andb_true_iff in Ec. destruct Ec as [_ Hoff]. apply Z.leb_le in Hoff.
+  destruct (rx_add_remove _ KFin (m_payload m) offset) as [[rx1 ar] w] eqn:Erx.
+  unfold force_immediate_ack in Erx. vsimpl.
+  assert (Hk : KFin <> KOther) by discriminate.
+  destruct (rx_add_remove_no_bug _ _ _ _ _ _ _ I1 Hoff Hk Erx) as (Hrx1 & a & -> & Na1 & Na2).
+  set (s5 := add_wakes _ _).
+  assert (H5 : vs_x ti tm p q s5 /\ in_rel s2 s5 /\ v_segs s5 = v_segs s2).
+  { unfold s5, add_wakes, force_immediate_ack.
+    split; [eapply x_update; [exact Hx|..]; vsimpl; auto|].
+    split; [exact (in_rel_refl s2)|reflexivity]. }
+  destruct H5 as (Hx5 & Hr5 & Hs5).
+  destruct (add_err_cases a Na1 Na2) as [-> | ->]; [|cbn [spx allowed]; split; [exact I|eapply x_xe; exact Hx5]].
+  destruct (mark_vsock_closed (v_tx s5)) as [tx1 w2] eqn:Em.
+  destruct (mark_closed_fields _ _ _ Em) as (M1 & M2 & M3).
+  cbn [spx]. unfold data_post. split; [reflexivity|].
+  destruct (inv_parts _ _ _ _ (proj1 Hx5)) as (K1 & K2 & K3 & K4 & K5 & K6 & K7 & K8).
+  split; [unfold add_wakes; eapply x_update; [exact Hx5|..]; vsimpl; auto|].
+  split; [exact Hr5|exact Hs5].
+Qed.
+
+(* ------------------------------------------------------------------ one message *)
+Definition msg_rel (s s' : vsock) : Prop :=
+  v_opts s' = v_opts s /\ v_inbox s' = v_inbox s /\ v_inbox_closed s' = v_inbox_closed s /\
+  v_emsg_limit s' = v_emsg_limit s /\ v_now s' = v_now s /\ v_restart s' = v_restart s /\
+  v_last_sent_seq_nr s' = v_last_sent_seq_nr s /\ v_env_now s' = v_env_now s /\
+  ss_mono (v_ss s) (v_ss s') /\ (emsg_free s -> emsg_free s') /\
+  (fin_cand s' = None \/ fin_cand s' = fin_cand s).
+
+Lemma msg_rel_refl s : msg_rel s s.
+Proof. unfold msg_rel, ss_mono. repeat (split; [first [reflexivity|lia]|]). auto. Qed.
+
+Lemma tbl_msg_rel s s1 : tbl_rel s s1 -> msg_rel s s1.
+Proof.
+  intros (E1&E2&E3&E4&E5&E6&E7&E8&E9&E10&E11&E12&E13&E14&E15&E16&E17&E18&Hst&Hfc).
+  unfold msg_rel, ss_mono, emsg_free. rewrite E4, E14, E10. repeat (split; [first [assumption|reflexivity|lia]|]).
+  split; [auto|exact Hfc].
+Qed.
+
+Lemma in_msg_rel s s' : in_rel s s' -> msg_rel s s'.
+Proof.
+  intros (A1&A2&A3&A4&A5&A6&A7&A8&A9&A10&A11&A12).
+  unfold msg_rel. repeat (split; [assumption|]). right. unfold fin_cand. rewrite A2, A10. reflexivity.
+Qed.
+
+Lemma msg_rel_trans a b c : msg_rel a b -> msg_rel b c -> msg_rel a c.
+Proof.
+  unfold msg_rel. intros (A1&A2&A3&A4&A5&A6&A7&A8&A9&A10&A11) (B1&B2&B3&B4&B5&B6&B7&B8&B9&B10&B11).
+  repeat (split; [congruence|]). split; [eapply ss_mono_trans; eauto|]. split; [auto|].
+  destruct B11 as [B11|B11]; rewrite B11; auto.
+Qed.
+
+Definition pim_post ti tm p q (s s' : vsock) (r : on_ack_result) : Prop :=
+  vs_x ti tm (p + ar_acked_bytes r) q s' /\ acc_ok r /\ msg_rel s s' /\
+  v_state s' <> SynReceived /\
+  (forall x, ps_for x (v_segs s) -> ps_for x (v_segs s')).
+
+Lemma process_incoming_message_x ti tm p q (s : vsock) m :
+  vs_x ti tm p q s -> v_state s <> SynReceived -> ps_for (v_last_sent_seq_nr s) (v_segs s) ->
+  spx strict (process_incoming_message cci s m) (pim_post ti tm p q s) (vs_xe ti tm q).
+Proof.
+  intros Hx Hst Hps. rewrite process_incoming_message_eq.
+  pose proof (state_table_rel s (m_hdr m)) as Ht.
+  pose proof (state_table_no_bug s (m_hdr m) Hst) as Hnb.
+  pose proof (state_table_err s (m_hdr m)) as Herr.
+  destruct (state_table s (m_hdr m)) as [s1|s1 e|s1]; cbn [tbl_st] in Ht.
+  - (* dropped *)
+    cbn [spx]. unfold pim_post. cbn [on_ack_result_default ar_acked_bytes].
+    replace (p + 0) with p by lia. split; [eapply x_tbl; eauto|].
+    split; [apply acc_ok_default|]. split; [apply tbl_msg_rel; exact Ht|]. split; [exact Hnb|].
+    destruct Ht as (_&_&E3&_). rewrite E3. auto.
+  - (* ST_RESET *)
+    destruct (Herr s1 e Hst eq_refl) as [-> _]. cbn [spx allowed]. split; [exact I|].
+    eapply x_xe, x_tbl; eauto.
+  - (* the common part *)
+    pose proof (x_tbl _ _ _ _ _ _ Hx Ht) as Hx1.
+    assert (Hps1 : ps_for (v_last_sent_seq_nr s1) (v_segs s1)).
+    { destruct Ht as (_&_&E3&_&_&_&_&_&_&_&_&_&_&_&_&E16&_). rewrite E3, E16. exact Hps. }
+    unfold pim_cont.
+    destruct (pim_ack_x ti tm p q s1 (m_hdr m) Hx1 Hps1) as (s2 & res & -> & Hx2 & Hok & Hps2 & Hr2 & Hall).
+    assert (Hfin : forall s' r, data_post ti tm (p + ar_acked_bytes res) q s2 res s' r -> pim_post ti tm p q s s' r).
+    { intros s' r (-> & A1 & A2 & A3). unfold pim_post. split; [exact A1|]. split; [exact Hok|].
+      split; [eapply msg_rel_trans; [apply tbl_msg_rel; exact Ht|];
+              eapply msg_rel_trans; apply in_msg_rel; eassumption|].
+      split.
+      - destruct A2 as (_ & B2 & _). destruct Hr2 as (_ & C2 & _). rewrite B2, C2. exact Hnb.
+      - intros x Hpx. rewrite A3. apply Hall. destruct Ht as (_&_&E3&_). rewrite E3. exact Hpx. }
+    cbv zeta. destruct (ch_type (m_hdr m)).
+    + eapply spx_weaken; [apply pim_data_x; exact Hx2|exact Hfin|auto].
+    + eapply spx_weaken; [apply pim_fin_x; exact Hx2|exact Hfin|auto].
+    + cbn [spx]. apply Hfin. unfold data_post. split; [reflexivity|]. split; [exact Hx2|]. split; [apply in_rel_refl|reflexivity].
+    + cbn [spx]. apply Hfin. unfold data_post. split; [reflexivity|]. split; [exact Hx2|]. split; [apply in_rel_refl|reflexivity].
+    + cbn [spx]. apply Hfin. unfold data_post. split; [reflexivity|]. split; [exact Hx2|]. split; [apply in_rel_refl|reflexivity].
 Qed.
 
 End PollIn.
